@@ -15,6 +15,9 @@
 (*              instantiate_classes (_core.py:1214-1256), the cycle check  *)
 (*              of ActionLink.__init__ (:193-198).                         *)
 (*                                                                         *)
+(* Line anchors are those of properties.jsonl (snapshot 7f1da0b); in       *)
+(* _core.py they moved down by 3 lines after the later fix: of save.       *)
+(*                                                                         *)
 (* Keys are paths: the dotted key "r.child.init_args.p" is the sequence    *)
 (* <<"r","child","init_args","p">>.                                        *)
 (***************************************************************************)
